@@ -24,7 +24,8 @@ META = {
         "that is committed (append-only feedback). Not decided: arbitrary "
         "operation sequences as such."
         ' Also: module-level / class-level containers are not mutated (GLOBALS), parse_tracts forwards as given, seed guard, commit guards incl. early returns, Config reader keeps explicit False.'
-        ' Round 7: parse() is not skipped because of parse_complete; parse()/preprocess() write no setting and grow no result list in place; TractParser seeding cannot be missing.'),
+        ' Round 7: parse() is not skipped because of parse_complete; parse()/preprocess() write no setting and grow no result list in place; TractParser seeding cannot be missing.'
+        ' Round 8: parse() does not rewrite the Config object held in .config (alias, setattr).'),
     'families': ['GLOBALS', 'COMMIT', 'FRESH', 'TBL', 'FORWARD', 'DEADPARAM', 'SIB-DEFAULTS'],
 }
 
